@@ -79,7 +79,7 @@ package resource
 //@ func (c *CanonicalIdentity) String() (res)
 //@   requires c != nil
 //@   ensures c.Version == "" && c.Fragment == "" ==> res == c.Url
-//@   ensures c.Version != "" && c.Fragment == "" ==> res == sprintf_SS("%s|%s", c.Url, c.Version)
-//@   ensures c.Version == "" && c.Fragment != "" ==> res == sprintf_SS("%s#%s", c.Url, c.Fragment)
-//@   ensures c.Version != "" && c.Fragment != "" ==> res == sprintf_SS("%s#%s", sprintf_SS("%s|%s", c.Url, c.Version), c.Fragment)
+//@   ensures c.Version != "" && c.Fragment == "" ==> res == c.Url + "|" + c.Version
+//@   ensures c.Version == "" && c.Fragment != "" ==> res == c.Url + "#" + c.Fragment
+//@   ensures c.Version != "" && c.Fragment != "" ==> res == c.Url + "|" + c.Version + "#" + c.Fragment
 //@   assigns nothing
